@@ -116,6 +116,7 @@ SECOND = [0x7F, 0x80, 0x8F, 0x90, 0x9F, 0xA0, 0xBF, 0xC0]
 TRAIL = [b"", b"A", b"\x80", b"\xc2", b"\xc3\xa9", b"\xff"]
 ALPHA_Q = [0x41, 0x7F, 0x80, 0x8F, 0x90, 0x9F, 0xA0, 0xBF, 0xC2, 0xE0, 0xED, 0xEF, 0xF0, 0xF4]
 ALPHA_T = sorted(set(ALPHA_Q + [0x00, 0xC0, 0xC1, 0xDF, 0xE1, 0xEC, 0xEE, 0xF1, 0xF3, 0xF5, 0xFF, 0xBB, 0xBD]))
+ALPHA_T20 = sorted(set(ALPHA_Q + [0xC0, 0xC1, 0xDF, 0xE1, 0xEE, 0xF1]))
 GOOD = ["a", "é", "€", "😀", "�", "﻿", "ࠀ", "퟿", "", "\U00010000", "\U0010ffff", "\x7f", "\x80", "߿"]
 
 ENCODINGS = ["utf-8", "ibm866", "iso-8859-2", "iso-8859-3", "iso-8859-4", "iso-8859-5", "iso-8859-6", "iso-8859-7",
@@ -164,7 +165,7 @@ def gen_cases(tier, rng):
             cases.append(("utf8\tstd\t" + hx(bytes(t)), "std"))
     alpha = ALPHA_T if thorough else ALPHA_Q
     for n in ((3, 4, 5) if thorough else (3, 4)):
-        a = alpha if n <= 4 else ALPHA_Q
+        a = alpha if n <= 3 else (ALPHA_T20 if thorough else ALPHA_Q)
         for t in itertools.product(a, repeat=n):
             cases.append(("utf8\tstd\t" + hx(bytes(t)), "std"))
     # ---- dec cover: every lead class × continuation classes × trailer × every partition × EOF
@@ -193,10 +194,15 @@ def gen_cases(tier, rng):
         for t in itertools.product(alpha, repeat=n):
             for part in partitions(bytes(t)):
                 cases.append((mk_dec(part), "dec-alpha"))
-    a4 = ALPHA_Q if thorough else [0x41, 0x80, 0x9F, 0xA0, 0xBF, 0xC2, 0xE0, 0xED, 0xF0, 0xF4]
+    a4 = ALPHA_T20 if thorough else ALPHA_Q
     for t in itertools.product(a4, repeat=4):
         for part in partitions(bytes(t)):
             cases.append((mk_dec(part), "dec-alpha"))
+    if thorough:
+        # length 5 over a small boundary alphabet × all 2-partitions
+        for t in itertools.product([0x41, 0x80, 0xBF, 0xC2, 0xE0, 0xED, 0xF0, 0xF4], repeat=5):
+            for part in partitions(bytes(t), k3=False):
+                cases.append((mk_dec(part), "dec-alpha"))
     # ---- dec random
     for _ in range(3000 if not thorough else 200000):
         b = bytearray()
